@@ -87,10 +87,42 @@ def correspond(run):
     run.add_cases(len(cases), len(set(json.dumps([c["ty"], c["values"][:50], len(c["values"])]) for c in cases)),
                   [{"ty": c["ty"], "values": c["values"][:4], "bytes": c["bytes"][:8]} for c in cases[:3] + cases[6:8]],
                   rule="values of all ten types: 0, 1, 0x7f, 0x80, 0xff, all-ones, sign boundaries, random; vectors of length 0, 1, 2..300 and "
-                       "100000, each queried twice; strings with multi-byte characters; distinct (type, value) pairs counted",
+                       "100000, each queried twice, and again in vectors with spare capacity; strings with multi-byte characters; distinct (type, value) pairs counted",
                   extra={"by_type": dist, "largest_vector": max(len(c["values"]) for c in cases)})
     run.oblige("correspondence:sig-bytes", "correspondence", not bad, "%d differ; first %s" % (len(bad), bad[:2]))
+    # the model IS the property's right-hand side (native-endian bytes of the elements / UTF-8 bytes): a difference is a failing input
+    for c, r in zip(cases, res):
+        if r != c["bytes"]:
+            shown = bytes(c["values"]).decode("utf-8", "replace") if c["ty"] == "String" else c["values"][:16]
+            run.violation("sig-bytes", "get_sig of the %s value %r%s returns %d bytes %s..., the native-endian / UTF-8 representation has %d bytes %s..." % (
+                c["ty"], shown, " (vector with %d spare capacity)" % c["spare_capacity"] if c.get("spare_capacity") else "",
+                len(c["bytes"]), c["bytes"][:10], len(r), r[:10]),
+                {"kind": "impl-input", "input": {"type": c["ty"], "values": c["values"][:200], "spare_capacity": c.get("spare_capacity", 0)},
+                 "observed": c["bytes"][:64], "expected": r[:64]})
+            break
     run.oblige("direct:second-call-same-bytes", "correspondence", not again, "second get_sig differs for %s" % again[:3])
+    # the bytes are what the Sha variant hashes: its signatures must be those of the model run on scripts drawn from
+    # generators seeded with Sha512_256(get_sig(key)) - for every key, whatever was hashed before it
+    from props import pmhlib
+    pc, codes = pmhlib.correspond_pmh(run, 700 if run.tier == "quick" else 7000)
+    if pc is not None:
+        sha = [(c, cd) for c, cd in zip(pc, codes) if c["variant"] == "3asha"]
+        badsha = [(c, cd) for c, cd in sha if cd != 0]
+        run.coverage["sha_variant_cases"] = len(sha)
+        run.oblige("correspondence:sha-seeded-generator", "correspondence", not badsha,
+                   "%d of %d ProbMinHash3aSha cases differ from the model seeded with Sha512_256(get_sig(key)); first m=%s items=%s" % (
+                       len(badsha), len(sha), badsha[0][0]["m"] if badsha else "",
+                       sum(len(call["items"]) for call in badsha[0][0]["calls"]) if badsha else ""))
+
+
+def search(run):
+    if run.violations:
+        return
+    rc, js, out, err = vlib.harness(["pmh-props", "--seed", run.seed, "--n", 1500], timeout=1800)
+    if rc == 0 and js is not None:
+        for f in js["found"]:
+            if f["key"] in ("batch-3asha",) or (f["key"] == "dup" and "3a" in f["text"]):
+                run.violation(f["key"], f["text"], {"kind": "impl-input", "input": f["input"], "observed": f["text"]})
 
 
 def replay(path):
